@@ -45,6 +45,7 @@ class PMUnit(Unit):
     monad = "PM"
     get, modify, panic, assert_, usub, lift_opt = "PMExt.getLR", "PMExt.modifyLR", "(PM.rpanic \"generated\")", "PMExt.assert", "PMExt.usub", "PMExt.liftOpt"
     uadd = "PMExt.uadd"
+    umul = "PMExt.umul"
     state_vars = {"input"}
     state_subobjects = {"reader"}
     state_types = ("LineReader",)
